@@ -30,6 +30,39 @@ def parsed_len_event(args):
     return ev
 
 
+# values of another Python type than the field's annotation: where the library is willing to encode such a message at all, the
+# sizes it reports must be those of what it writes (a value it refuses to encode is no message, and nothing is claimed)
+LOOSE = {"bytes": ["na\u00efve caf\u00e9 \u2013", "abc", bytearray(b"\x00\xff"), memoryview(b"xyz")], "string": [b"abc", b"\xc3\xa9"],
+         "int32": [True, 3.0, "7"], "uint64": [True, 2.0], "sint64": [False, -2.0], "double": [3, True, "1.5"], "float": [1, False],
+         "bool": [1, 0, 2, "x", ""], "fixed32": [True, 5.0], "sfixed64": [True, -1.0], "enum": [True, 2.0]}
+
+
+def loose_len_event(args):
+    ty, fname, pos, v = args
+    w = msgev.world()
+    C = msgev.classes_for({"world": "dyn"})
+    f = next(x for x in w["schema"]["types"][ty] if x["name"] == fname)
+    ev = {"op": "len", "ty": ty, "res": "ok", "b": [], "len": -1, "dump": [], "sts": [], "delim": [], "case": {"ty": ty, "field": fname, "value": repr(v), "position": pos}}
+    try:
+        m = C[ty]()
+        setattr(m, dyn.py(f), [v] if f["card"] == "repeated" else {"k": v} if f["card"] == "map" else v)
+        ev["b"] = list(bytes(m))
+    except Exception:
+        return None                      # not encodable: no message, no claim
+    try:
+        ev["len"] = len(m)
+        s = io.BytesIO()
+        m.dump(s)
+        ev["dump"] = list(s.getvalue())
+        s = io.BytesIO()
+        m.dump(s, betterproto.SIZE_DELIMITED)
+        ev["delim"] = list(s.getvalue())
+        ev["sts"] = list(m.SerializeToString())
+    except Exception as ex:
+        ev["res"] = type(ex).__name__ + ":" + str(ex)[:60]
+    return ev
+
+
 def run(ctx):
     quick = ctx.tier == "quick"
     ctx.rule = ("len/bytes/dump/dump(SIZE_DELIMITED)/SerializeToString on (i) constructed Wide-family messages: every field x boundary value x "
@@ -64,6 +97,17 @@ def run(ctx):
         ctx.count_case(("parsed", bytes(e["case"]["src"])), len(e["b"]) > 0)
     ctx.sample({"constructed": {"ty": events[33]["ty"], "val": cs[33]["val"], "len": events[33]["len"], "bytes": events[33]["b"]}})
     ctx.sample({"decoded_with_unknown": {"src": ev2[len(ev2) // 2]["case"]["src"], "len": ev2[len(ev2) // 2]["len"]}})
+    loose = []
+    for ty in ("TImpl", "TOpt", "TRep", "TOne", "TMapV"):
+        for f in schema["types"][ty]:
+            kind = f["vkind"] if f["card"] == "map" else f["kind"]
+            for v in LOOSE.get(kind, []):
+                loose.append((ty, f["name"], f["card"], v))
+    lev = [e for e in (loose_len_event(a) for a in loose) if e is not None]
+    ctx.notes["loosely_typed_values_the_library_encodes"] = "%d of %d" % (len(lev), len(loose))
+    for e in lev:
+        ctx.count_case(("loose", repr(e["case"])), len(e["b"]) > 0)
+    events += lev
     slim = [{k: v for k, v in e.items() if k not in ("val", "obs", "b2")} for e in events]
     ctx.validate("Trace_Codec", slim, header={"schema": schema}, shard=4000)
     # (iii) along histories: objects filled / changed in place (list.append, map[key] = v, m.sub.x = v on lazily created
